@@ -270,6 +270,17 @@ def check_load(ctx: Context, rep, rule: str) -> None:
            construct=f"callers: {sorted(c.split(':')[1] for c in callers)}",
            message="the filler and the merge obtain their lists through "
            "load_or_create")
+    # ... and at the moment of use: a list loaded when a filler object is
+    # constructed is a snapshot that a session completed in between makes
+    # stale (its later write-back drops that session's shards)
+    early = sorted(c_ for c_ in callers - acq
+                   if c_.split(":")[1].rsplit(".", 1)[-1] in (
+                       "__init__", "__new__", "__post_init__"))
+    rep.ob(rule, not early, loc=loc_fn.loc(), where=loc_fn.qualname,
+           construct="load_or_create called from " + (", ".join(
+               e.split(":")[1] for e in early) or "users only"),
+           message="a shards list is loaded in a constructor (ahead of use): "
+           "the object may be used after another session extended the list")
     # parse sites of list files
     parse_ok = {loc_fn.fq,
                 "sedpack.io.dataset_base:DatasetBase._shard_info_iterator",
